@@ -228,6 +228,49 @@ func checkC42(c *Check) {
 		nilBreak := regexp.MustCompile(`if !\(\$ != nil\)\n\s+break`).MatchString(txt)
 		c.Ob("semaphore/notify-from-front", "Weighted.notifyWaiters", front && together && nilBreak, r.pos(ir.Info.Decl.Pos()), fmt.Sprintf("takes waiters.Front()=%v, stops on nil=%v, admits with cur+=n; Remove; close(ready) together=%v", front, nilBreak, together))
 	}
+	// (5) a waiter leaves the queue in one of two ways: its own Acquire removes it on cancellation, or someone admits it
+	// — and admission is `cur += n; Remove; close(ready)` together. A Remove without the close (in any other function)
+	// leaves that Acquire blocked for ever although it is no longer queued.
+	for _, name := range sortedKeys(r.funcs) {
+		fi := r.funcs[name]
+		if !strings.HasPrefix(name, "internal/vkgo/pkg/semaphore.Weighted.") || fi.Decl.Body == nil || fi.Obj.Name() == "Acquire" {
+			continue
+		}
+		ir := buildFuncIR(fi, r.co.allFuncs(), r.co.Fset)
+		var blocks func(b Block)
+		k := 0
+		blocks = func(b Block) {
+			removes, closes := 0, 0
+			var pos token.Pos
+			for _, n := range b {
+				switch n := n.(type) {
+				case *CallN:
+					if n.Fn != nil && n.Fn.Name() == "Remove" && n.Recv == "item.waiters" {
+						removes++
+						pos = n.Pos
+					}
+					if n.Builtin == "close" && len(n.Args) == 1 && strings.HasSuffix(n.Args[0], ".ready") {
+						closes++
+					}
+				case *IfN:
+					blocks(n.Then)
+					blocks(n.Else)
+				case *LoopN:
+					blocks(n.Body)
+				case *SwitchN:
+					for _, cs := range n.Cases {
+						blocks(cs.Body)
+					}
+				}
+			}
+			if removes > 0 {
+				k++
+				c.Ob("semaphore/removed-waiter-is-woken", fmt.Sprintf("Weighted.%s/remove#%d", fi.Obj.Name(), k), removes == closes, r.pos(pos), fmt.Sprintf("waiters removed in this block: %d, ready channels closed: %d", removes, closes))
+			}
+		}
+		blocks(ir.Body)
+	}
+	c.Floor("semaphore/removed-waiter-is-woken", 1)
 	c.Floor("semaphore/lockset", 15)
 	c.Floor("semaphore/admission-guard", 3)
 	c.Floor("semaphore/wake-up-after-capacity-change", 2)
